@@ -24,6 +24,7 @@ From FT Require Model.Toggle Proofs.EditInit.
 From FT Require Proofs.CoreTieBundle.
 From FT Require Model.EditCtor Proofs.EditCtor.
 From FT Require Proofs.EditCtorDict.
+From FT Require Proofs.EditCtorAgree.
 Import ListNotations.
 Open Scope Z_scope.
 
@@ -329,6 +330,18 @@ Theorem C06_sessions_from_prepared_registry : forall r0 ops,
   forall pre post, ops = pre ++ post -> WF (run (FT.Model.EditCtor.construct_dict r0) pre).
 Proof. exact EditCtorDict.construct_dict_session_WF. Qed.
 
+(* ---- the two constructor models agree: on a non-empty graph that carries none of the core features, the constructor
+        as the code runs it (construct_any: scan, detect, activate or compute) IS the plain "compute everything"
+        constructor of Proofs/EditInit.v - equality of states - so the earlier construction theorems are the
+        special case.  (Proofs/EditCtorAgree.v; the raw state's lookups are empty, EditInit.raw_state has them so
+        by definition; empty graph: construct_any only activates, the two resulting states coincide on the two
+        evaluated examples.) ---- *)
+Theorem C06_constructor_models_agree : forall r0 ctrk clin extra,
+  bk r0 = FT.Proofs.EditCtorAgree.empty_books -> node_ids r0 <> [] ->
+  (forall n k, In k (FT.Model.EditCtor.ctor_keys (FT.Model.EditCtor.with_seg r0)) -> attr r0 n k = None) ->
+  FT.Model.EditCtor.construct_any r0 ctrk clin extra = EditInit.construct r0 ctrk clin extra.
+Proof. exact FT.Proofs.EditCtorAgree.construct_any_is_construct. Qed.
+
 Example C06_example_invariants : cfg_ok ex_state /\ rp_disjoint ex_state /\ W_book ex_state.
 Proof.
   split; [unfold cfg_ok; cbn; intuition|]. split; [intros k _ []|].
@@ -391,3 +404,4 @@ Print Assumptions C06_sessions_from_any_construction.
 Print Assumptions C06_scan_is_group_by.
 Print Assumptions C06_supplied_ids_kept.
 Print Assumptions C06_sessions_from_prepared_registry.
+Print Assumptions C06_constructor_models_agree.
